@@ -9,7 +9,9 @@ import (
 	"golang.org/x/perf/internal/verifh/hx"
 )
 
-var pool = []string{"", "1", "1.0", "1k", "1Ki", "0x10", "NaN", "nan", "-0", "abc", "12abc", "1.2.3k", "10", "9"}
+var pool = []string{"", "1", "1.0", "1k", "1Ki", "0x10", "NaN", "nan", "-0", "abc", "12abc", "1.2.3k", "10", "9",
+	// blanks are part of a value: leading/trailing blanks and tabs, whitespace-only
+	"1 ", " 1", "abc ", " abc", " ", "\t", "1\t", "a b"}
 
 // every prefix letter, with and without i, with and without b/B; fractional and huge mantissas
 var prefixPool = func() []string {
